@@ -18,19 +18,25 @@ Has(r, f) == f \in DOMAIN r
 C == {i \in DOMAIN Rec : Rec[i].k = "c"}
 P == {i \in DOMAIN Rec : Rec[i].k = "p"}
 
-TextOk(e) == Has(e, "text") =>
+(* The property (C16 / C17) is the ROUND TRIP: the text or JSON the library produced parses back,
+   in the library, to an equal value.  That the text is letter for letter the one the format model
+   prints is conformance of the code to the model, not part of the property: a mismatch there is
+   reported as drift (the injectivity result of MCCodec then does not transfer). *)
+TextOk(e) == Has(e, "text") => e.tok /\ SameValue(e.ty, e.v, e.tback)
+TextFormat(e) == Has(e, "text") =>
                /\ (HasText(e.ty) /\ ~SetLike(e.ty) => e.text = EncText(e.ty, e.v))
-               /\ e.tok /\ SameValue(e.ty, e.v, e.tback)
-\* level / queue: the text lists the orders in listing order, which the recorded value shares
-TextExact(e) == (Has(e, "text") /\ e.ty = "level") => e.text = EncText(e.ty, e.v)
+               \* level / queue: the text lists the orders in listing order, which the recorded value shares
+               /\ (e.ty = "level" => e.text = EncText(e.ty, e.v))
 JsonOk(e) == Has(e, "json") =>
-               /\ (HasJson(e.ty) => e.json = EncJson(e.ty, e.v))
                /\ e.jok /\ SameValue(e.ty, e.v, e.jback)
                /\ (e.ty \in {"pkg", "pkgseq"} => e.valid)
+JsonFormat(e) == (Has(e, "json") /\ HasJson(e.ty)) => e.json = EncJson(e.ty, e.v)
 ParseOk(e) == e.panic = 0 /\ e.ok + e.err = e.n
 
-BadText == {i \in C : ~(TextOk(Rec[i]) /\ TextExact(Rec[i]))}
+BadText == {i \in C : ~TextOk(Rec[i])}
 BadJson == {i \in C : ~JsonOk(Rec[i])}
+DriftText == {i \in C : ~TextFormat(Rec[i])}
+DriftJson == {i \in C : ~JsonFormat(Rec[i])}
 BadParse == {i \in P : ~ParseOk(Rec[i])}
 First(S) == IF S = {} THEN 0 ELSE Min(S)
 SumN(S) == LET RECURSIVE F(_) F(T) == IF T = {} THEN 0 ELSE LET x == CHOOSE y \in T : TRUE IN Rec[x].n + F(T \ {x}) IN F(S)
@@ -38,6 +44,8 @@ Summary == [lines |-> Len(Rec), values |-> Cardinality(C), texts |-> Cardinality
             jsons |-> Cardinality({i \in C : Has(Rec[i], "json")}), types |-> Cardinality({Rec[i].ty : i \in C}),
             badtext |-> Cardinality(BadText), firstbadtext |-> First(BadText),
             badjson |-> Cardinality(BadJson), firstbadjson |-> First(BadJson),
+            drifttext |-> Cardinality(DriftText), firstdrifttext |-> First(DriftText),
+            driftjson |-> Cardinality(DriftJson), firstdriftjson |-> First(DriftJson),
             distinctinputs |-> LET D == {i \in DOMAIN Rec : Rec[i].k = "pstat"} IN IF D = {} THEN 0 ELSE Rec[CHOOSE i \in D : TRUE].distinct,
             parsefamilies |-> Cardinality(P), parseinputs |-> SumN(P), badparse |-> Cardinality(BadParse), firstbadparse |-> First(BadParse)]
 VARIABLE x
